@@ -296,6 +296,10 @@ func splitTerm(s string) []string {
 	return out
 }
 
+// narrow32: also mark 64 -> 32 bit truncations (only the range coder rule needs them; the
+// operation layer converts int64 distances it has range-checked).
+var narrow32 bool
+
 // keepConv names a conversion that changes the value (narrowing to 8/16 bits); "" = transparent.
 func keepConv(x *ssa.Convert) string {
 	to, ok1 := x.Type().Underlying().(*types.Basic)
@@ -314,7 +318,7 @@ func keepConv(x *ssa.Convert) string {
 		}
 		return 64
 	}
-	if size(to) < size(from) && size(to) <= 16 {
+	if size(to) < size(from) && (size(to) <= 16 || narrow32) {
 		return "u" + strconv.Itoa(size(to))
 	}
 	// arithmetic done in 8/16/32 bits and widened afterwards wraps before it is widened:
